@@ -561,6 +561,28 @@ func runCsvRT(args []string) (result string) {
 			return fmt.Sprintf("diff rewrite row %d %s", i, d)
 		}
 	}
+	// the instance that read the permuted / extended header now reads the file in declaration order (another header layout),
+	// and the instance that read that one reads the permuted file: columns are mapped by the header of the file being read
+	for _, rr := range []struct {
+		inst *helper.Csv[allKinds]
+		path string
+		want []*allKinds
+		tag  string
+	}{{c2, file2, want, "second-layout"}, {c3, file, rows, "first-layout"}} {
+		chx, err := rr.inst.ReadFromFile(rr.path)
+		if err != nil {
+			return "ERR reread-" + rr.tag + " " + err.Error()
+		}
+		gx := helper.ChanToSlice(chx)
+		if len(gx) != len(rr.want) {
+			return fmt.Sprintf("diff reused-reader %s count %d != %d", rr.tag, len(gx), len(rr.want))
+		}
+		for i := range rr.want {
+			if d := sameAllKinds(rr.want[i], gx[i]); d != "" && !crlfOnly(rr.want[i], gx[i]) {
+				return fmt.Sprintf("diff reused-reader %s row %d %s", rr.tag, i, d)
+			}
+		}
+	}
 	return fmt.Sprintf("ok %d crlf=%d", n, crlf)
 }
 
@@ -781,6 +803,70 @@ func jsonShapesRT(r *rand.Rand, n int) string {
 	if !bytes.Equal(want, back) {
 		return fmt.Sprintf("lists %s != %s", trunc(string(back), 120), trunc(string(want), 120))
 	}
+	// plain scalars as elements: strings (every control character, DEL, characters beyond the BMP), floats, integers at the extremes
+	ctl := []string{"\a", "\v", "\x00", "\x01\x1f", "\x7f", "del\x7fmid", "\U0001F600", "\U000E0001", "tab\tnl\n", "\u2028\u2029", "<&>", "\\", "\"", ""}
+	strs := make([]string, n)
+	for i := range strs {
+		if r.Intn(2) == 0 {
+			strs[i] = ctl[r.Intn(len(ctl))]
+		} else {
+			strs[i] = nastyString(r)
+		}
+	}
+	buf.Reset()
+	if err := helper.ChanToJSON(helper.SliceToChan(strs), &buf); err != nil {
+		return "strings " + err.Error()
+	}
+	gs := helper.ChanToSlice(helper.JSONToChanWithLogger[string](&buf, quiet))
+	if len(gs) != len(strs) {
+		return fmt.Sprintf("strings count %d != %d", len(gs), len(strs))
+	}
+	for i := range strs {
+		if gs[i] != strs[i] {
+			return fmt.Sprintf("strings element %d %q != %q", i, gs[i], strs[i])
+		}
+	}
+	anys := make([]any, n)
+	for i := range anys {
+		switch r.Intn(3) {
+		case 0:
+			anys[i] = ctl[r.Intn(len(ctl))]
+		case 1:
+			anys[i] = float64(r.Intn(1000)) / 8
+		default:
+			anys[i] = r.Intn(2) == 0
+		}
+	}
+	buf.Reset()
+	if err := helper.ChanToJSON(helper.SliceToChan(anys), &buf); err != nil {
+		return "anys " + err.Error()
+	}
+	ga := helper.ChanToSlice(helper.JSONToChanWithLogger[any](&buf, quiet))
+	if len(ga) != len(anys) {
+		return fmt.Sprintf("anys count %d != %d", len(ga), len(anys))
+	}
+	for i := range anys {
+		if ga[i] != anys[i] {
+			return fmt.Sprintf("anys element %d %v != %v", i, ga[i], anys[i])
+		}
+	}
+	nums := make([]int64, n)
+	for i := range nums {
+		nums[i] = []int64{math.MaxInt64, math.MinInt64, 0, -1, 1 << 53, (1 << 53) + 1, int64(r.Intn(1000))}[r.Intn(7)]
+	}
+	buf.Reset()
+	if err := helper.ChanToJSON(helper.SliceToChan(nums), &buf); err != nil {
+		return "int64s " + err.Error()
+	}
+	gn := helper.ChanToSlice(helper.JSONToChanWithLogger[int64](&buf, quiet))
+	if len(gn) != len(nums) {
+		return fmt.Sprintf("int64s count %d != %d", len(gn), len(nums))
+	}
+	for i := range nums {
+		if gn[i] != nums[i] {
+			return fmt.Sprintf("int64s element %d %d != %d", i, gn[i], nums[i])
+		}
+	}
 	return ""
 }
 
@@ -903,8 +989,38 @@ func runCsvBad(args []string) string {
 		if strings.Join(got, "|") != strings.Join(want, "|") {
 			return fmt.Sprintf("diff got=%d want=%d first-got=%v first-want=%v", len(got), len(want), firstOr(got), firstOr(want))
 		}
+		// the same reader instance is then given well-formed data: whatever the bytes before did, it must deliver the record and close
+		good := "x,1,2.5,true\n"
+		if hasHeader {
+			good = "Name,Count,Value,Flag\n" + good
+		}
+		var after []string
+		for row := range c.ReadFromReader(strings.NewReader(good)) {
+			after = append(after, fmt.Sprintf("%q/%d/%x/%t", row.Name, row.Count, math.Float64bits(row.Value), row.Flag))
+		}
+		if len(after) != 1 || after[0] != fmt.Sprintf("%q/%d/%x/%t", "x", 1, math.Float64bits(2.5), true) {
+			return fmt.Sprintf("diff reuse-after-malformed got=%v", after)
+		}
+		// a row type with a field the codec does not support (a defined type over time.Time): an error, never a panic or a hang
+		nt, _ := helper.NewCsv[namedTimeRow](hasHeader)
+		nt.Logger = quiet
+		for range nt.ReadFromReader(bytes.NewReader(raw)) {
+		}
+		ntGood := "x,2024-01-02 00:00:00\n"
+		if hasHeader {
+			ntGood = "Name,When\n" + ntGood
+		}
+		for range nt.ReadFromReader(strings.NewReader(ntGood)) {
+		}
 		return fmt.Sprintf("ok %d", len(got))
 	})
+}
+
+type stamp time.Time
+
+type namedTimeRow struct {
+	Name string
+	When stamp
 }
 
 func firstOr(l []string) string {
@@ -1248,7 +1364,14 @@ func runBacktest(args []string) string {
 					price = 100 + float64(a) + float64(i)*1e-6*float64(1+r.Intn(3)) + r.Float64()*1e-7
 				}
 				op := price + math.Round((r.Float64()-0.5)*64)/64
-				snaps = append(snaps, &asset.Snapshot{Date: today.AddDate(0, 0, -(n - i)), Open: op, High: math.Max(op, price) + 1, Low: math.Max(0.5, math.Min(op, price)-1), Close: price, Volume: float64(100 + r.Intn(1000))})
+				back := 0
+				if seed%5 == 0 && a == 0 {
+					back = lastDays + n + 5 // a stale asset: every snapshot is older than the look-back window
+				}
+				snaps = append(snaps, &asset.Snapshot{Date: today.AddDate(0, 0, -(n-i)-back), Open: op, High: math.Max(op, price) + 1, Low: math.Max(0.5, math.Min(op, price)-1), Close: price, Volume: float64(100 + r.Intn(1000))})
+			}
+			if seed%7 == 0 && a == nassets-1 && nassets > 1 {
+				snaps = nil // an asset that is registered but has no snapshots at all
 			}
 			data[name] = snaps
 			repo.Append(name, helper.SliceToChan(snaps))
@@ -1326,6 +1449,12 @@ func runBacktest(args []string) string {
 			if err := bt.Run(); err != nil {
 				return "ok runerr"
 			}
+			if seed%4 == 1 {
+				// the same report object receives a second run: still exactly one result per pair
+				if err := bt.Run(); err != nil {
+					return "ok runerr"
+				}
+			}
 			got := map[string]string{}
 			total := 0
 			for name, rs := range rep.Results {
@@ -1338,8 +1467,13 @@ func runBacktest(args []string) string {
 				return fmt.Sprintf("ok count:%d!=%d", total, len(expect))
 			}
 			for _, k := range keys(expect) {
-				if got[k] != expect[k] {
-					return fmt.Sprintf("ok mismatch:%s:%s!=%s", strings.ReplaceAll(k, " ", "_"), got[k], expect[k])
+				e := expect[k]
+				if strings.HasSuffix(e, ","+hexOfFloat(math.NaN())) {
+					// no snapshot inside the window: the direct evaluation has no outcome at all; DataReport records 0 (nothing gained)
+					e = strings.TrimSuffix(e, hexOfFloat(math.NaN())) + hexOfFloat(0)
+				}
+				if got[k] != e {
+					return fmt.Sprintf("ok mismatch:%s:%s!=%s", strings.ReplaceAll(k, " ", "_"), got[k], e)
 				}
 			}
 			return fmt.Sprintf("ok fine pairs=%d", len(expect))
